@@ -40,6 +40,13 @@ func genScript(r *rand.Rand, handler string, typ int, isHTTP bool, hasCID bool) 
 	if chance(r, 8) {
 		pre = append(pre, "evraw:raw")
 	}
+	// the library's own decoding of params and token, which raises the
+	// errors the protocol prescribes
+	if strings.HasPrefix(handler, "call") || strings.HasPrefix(handler, "auth") || handler == "new" {
+		pre = append(pre, "pp", "pt")
+	} else if handler == "access" {
+		pre = append(pre, "pt")
+	}
 	if chance(r, 4) {
 		// an event that is invalid for the resource type
 		pre = append(pre, "chg:x", "add:0", "rm:1")
@@ -152,6 +159,10 @@ func (RequestsScenario) GenCase(r *rand.Rand, prop string) interface{} {
 	if chance(r, 10) {
 		c.PubFailPct = 15
 	}
+	if chance(r, 20) {
+		// ownership wider than the service's name
+		c.Owned = &[2][]string{{">"}, {">"}}
+	}
 	hs := handlerSets(c)
 	pats := patsOf(c)
 	id := 0
@@ -164,6 +175,11 @@ func (RequestsScenario) GenCase(r *rand.Rand, prop string) interface{} {
 		rname := instantiate(r, c.FullPattern(p), false)
 		if chance(r, 8) {
 			rname = pick(r, "test.nomatch", "test.model", "test", "other.model.1", "test.sub.item", "test.model.1.set.new")
+		}
+		if c.Owned != nil && chance(r, 25) {
+			// the service owns more than its own namespace: a foreign name
+			// that merely begins with the service's name is not its resource
+			rname = pick(r, strings.Replace(rname, ".", "", 1), strings.Replace(rname, ".", "s.", 1), "other."+rname)
 		}
 		rtype := pick(r, "access", "get", "get", "call", "call", "call", "auth")
 		method := ""
@@ -346,7 +362,7 @@ func (e *Engine) checkRequests(ep int) {
 			}
 		}
 		typ := e.Case.Pats[d.PatID].Type
-		ex := model.PredictResponse(d.Handler, s.Op.Script, id, f.IsHTTP, d.RName, typ, f.CID)
+		ex := model.PredictResponse(d.Handler, model.ExpandParse(s.Op.Script, f.Params, f.Token), id, f.IsHTTP, d.RName, typ, f.CID)
 		if len(resp) >= 1 {
 			got := resp[0].Data
 			okPayload := true
